@@ -211,7 +211,7 @@ def sweep(kind: str, rng: Rng, thorough: bool, n_quick_cfg: int, n_pairs_quick: 
             for oc in alphabet:
                 singles.append({k: oc})
         pairs = []
-        if thorough and ci < max(1, 8 // shard[1]):
+        if thorough and ci * shard[1] + shard[0] < 4:      # all pairs for the first four configurations of the (unsharded) list
             for i, j in itertools.combinations(range(n), 2):
                 for oi in OUTCOMES[1:3]:
                     for oj in OUTCOMES[1:4]:
